@@ -429,6 +429,11 @@ func (c *Client) send(dest net.Addr, msg *dhcpv6.Message) (<-chan *dhcpv6.Messag
 
 	if _, err := c.conn.WriteTo(msg.ToBytes(), dest); err != nil {
 		cancel()
+		if atomic.LoadUint32(&c.closed) != 0 {
+			// Close got in between two tries: report it the way a call
+			// that was waiting when Close ran does.
+			return nil, nil, ErrNoResponse
+		}
 		return nil, nil, fmt.Errorf("error writing packet to connection: %v", err)
 	}
 	return ch, cancel, nil
